@@ -41,6 +41,8 @@ fn main() {
         }
         i += 1;
     }
+    // error values must not capture backtraces (cost, and noise in witnesses)
+    std::env::set_var("RUST_LIB_BACKTRACE", "0");
     runner::install_panic_hook();
     let code = props::dispatch(&prop, tier, seed, only, &rest);
     std::process::exit(code);
